@@ -118,6 +118,18 @@ def structural(rx):
         for n in (rx - 3, rx - 2, rx - 1, rx, rx + 1, 127, 128):
             if n > 0:
                 vs.append([b0] + varint(n))                                  # header only: would it fit?
+    # complete packets whose remaining length is written in a non-minimal form with a NON-ZERO value
+    # (`82 00` for 2, `82 80 00`): the length resolves, the body arrives, and only the canonicality rule
+    # stands between the packet and the application
+    for name, pkt in valid_packets():
+        if 0 < pkt[1] < 128:
+            vs.append([pkt[0], pkt[1] | 0x80, 0x00] + pkt[2:])
+            vs.append([pkt[0], pkt[1] | 0x80, 0x80, 0x00] + pkt[2:])
+    # the same for the property-block length of a PUBLISH and for a Subscription Identifier value
+    vs.append(frame(0x30, lp(b"a") + [0x80, 0x00] + [1, 2]))
+    vs.append(frame(0x30, lp(b"a") + [0x82, 0x00, 0x01, 0x01] + [1, 2]))
+    vs.append(frame(0x32, lp(b"a") + [0, 9] + [0x83, 0x00, 0x0B, 0x85, 0x00] + [1]))
+    vs.append(frame(0x32, lp(b"a") + [0, 9] + [0x02, 0x0B, 0x05] + [1]))          # canonical control
     # per-type bodies: valid, every truncation (declared length kept -> incomplete; adjusted -> fields
     # run past the packet), one trailing byte
     for name, pkt in valid_packets():
